@@ -24,6 +24,24 @@ CHECKS = {
     "C26": ("exploration", "runtime monitoring: address-agreement oracle over barrier-released first users; forked fresh processes for the factory's own first use; Miri many-seeds and TSan as race detectors",
             "All threads racing on the first use of a bean name (and of the factory itself, one fresh process per trial) must be handed one instance that later lookups also return. Thousands of races sampled natively, Miri explores small cases under many scheduler seeds and flags data races; sampling only.",
             "Sampled schedules; users of singletons are assumed to go through BeanFactory::get_or_default.", "DESIGN.md §3 C26", "wl-pure/beans"),
+    "C07": ("exploration", "runtime monitoring: online automaton over Listener events (trace specification of the documented state graph) on generated bodies and resume sequences; ASan overlay in thorough",
+            "A recording listener feeds an automaton that checks continuity, documented edges (incl. 'once due'), exactly-one matching callback with payload, state()==last report, silence after terminal states and stored-outcome resumes, over thousands of generated body x resume-sequence programs (direct and via Scheduler).",
+            "A body that ends while parked in a Syscall state has no documented edge; the oracle only demands that nothing illegal is reported.", "DESIGN.md §3 C07", "wl-core/coro"),
+    "C08": ("exploration", "runtime monitoring: unique-value in/out sequence oracle across the coroutine boundary; ASan overlay in thorough",
+            "Unique 64-bit payloads both ways over bodies with 0-64 suspend points, every ending (return, panic with &str / formatted String / non-string payload), optional panicking listener and a sibling parked in a delay; checks order, exactly-once completion, message fidelity, no unwinding into the resumer.",
+            "Single thread; payloads without a string have no message to carry.", "DESIGN.md §3 C08", "wl-core/coro"),
+    "C09": ("exploration", "runtime monitoring: per-yield isolation oracle (no carry-over model) over interleavings of 2-6 coroutines on one thread",
+            "Each yield's reported wake-up time / cancellation is compared with what that yield requested, over thousands of seeded interleavings that include requests issued in Syscall states (what hooked waits and the cancel signal handler do).",
+            "Requests are thread-local, so one thread per history.", "DESIGN.md §3 C09", "wl-core/coro"),
+    "C10": ("exploration", "runtime monitoring: offline checker over resumption stamps and result maps (exactly-once results, delay lower/upper bound in passes, silence after cancel)",
+            "Hundreds to thousands of seeded schedules (1-40 coroutines, delays, panics, priorities, cancel requests between passes, random gaps) judged from body-side stamps and the scheduler's returned maps.",
+            "One Scheduler at a time per process; pass budgets (150 ms) assumed never to be the limiting factor.", "DESIGN.md §3 C10", "wl-core/coro"),
+    "C23": ("exploration", "runtime monitoring: in-callback stack-pointer/segment-bounds oracle over deep recursions incl. caught panics; process survival",
+            "Inside every growth callback the stack pointer is located in a known segment and the room below it compared with the red zone; stack_infos() equality before/after (also after a caught panic); recursion of several stack sizes must survive, in coroutines and on plain threads.",
+            "The runtime counts the guard page as room (oracle allows one page + 3 KiB); workload frames stay <= red_zone/4.", "DESIGN.md §3 C23", "wl-core/stack"),
+    "C24": ("exploration", "runtime monitoring: fault injection inside coroutines (null/wild access, runaway recursion, faults with the stack pointer moved by inline asm) with result/message oracle and survival of siblings",
+            "Each fault kind after 0-5 suspends must yield Error with the message the stack-pointer position calls for (boundary positions top, top-16, bottom, bottom-16, heap), the coroutine stays failed, healthy coroutines before/after are unaffected, the process survives.",
+            "Segments include their guard page; x86-64 Linux only; not under ASan/valgrind.", "DESIGN.md §3 C24", "wl-core/stack"),
 }
 
 NOT_YET = "check not built yet in this session (work in progress; see DESIGN.md §3 for the planned monitor)"
@@ -76,6 +94,8 @@ NA = {}
 ENGINES = [
     {"name": "wl-pure/queues", "path": "/verif/wl-pure", "serves_properties": ["C03", "C04", "C05", "C06", "C25", "C26"],
      "kind_free_text": "Rust workload binary over the real work_steal.rs/ordered_work_steal.rs (#[path] include), run natively, under Miri and under TSan; online oracles"},
+    {"name": "wl-core", "path": "/verif/wl-core", "serves_properties": ["C07", "C08", "C09", "C10", "C23", "C24", "C25"],
+     "kind_free_text": "Rust workload binaries linked against /repo/core (path dependency, feature verif): generated programs + online oracles; rebuilt under ASan for thorough tiers"},
     {"name": "driver", "path": "/verif/check", "serves_properties": [],
      "kind_free_text": "python3 driver: builds, fans seeded case ranges out over processes, resumes after crashes/hangs, matches signatures against known_findings.json, writes evidence/replay"},
 ]
